@@ -94,7 +94,22 @@ def h_mgm_cycles(env):
                                                            gain=_c._potential_gain, others=dict(_c._neighbors_gains))
                 _o()
             c._handle_gain_messages = hg
-    if "offerers" in p:
+    if "offerers_by_cycle" in p:
+        # (MGM2) the offerer role of every computation, cycle by cycle (cycle counter 1 = first decision phase)
+        roles = p["offerers_by_cycle"]
+
+        def set_roles(c_, name_):
+            k_ = min(max(c_.cycle_count, 1), len(roles)) - 1
+            c_._threshold = 2 if name_ in roles[k_] else -1
+        for name, c in net.comps.items():
+            set_roles(c, name)
+            prev = c._on_new_cycle
+
+            def nc(count, _o=prev, _c=c, _n=name):
+                _o(count)
+                set_roles(_c, _n)
+            c._on_new_cycle = nc
+    elif "offerers" in p:
         # (MGM2) fix which computations act as offerers in every cycle instead of exploring the
         # random draw: the role assignments are enumerated across shapes (one job each)
         for name, c in net.comps.items():
@@ -224,6 +239,8 @@ def _shapes_mgm(tier, prop=None):
         dict(spec="chain3", stop_cycle=2, start_order="rev", policy="lifo", interleave_start=True),
         dict(spec="triangle", stop_cycle=2, policy="random", sched_seed=1),
         dict(spec="overlap", stop_cycle=2, modes=["min"]),
+        dict(spec="chain3", stop_cycle=3, modes=["min"], policy="favor:x1"),
+        dict(spec="chain3", stop_cycle=3, modes=["max"], policy="starve:x3"),
         dict(spec="double_pair", stop_cycle=2, modes=["max"]),
         # every allowed value of the algorithm's own parameters
         dict(spec="pair2", stop_cycle=2, algo_params=dict(break_mode="random")),
@@ -280,6 +297,12 @@ def _shapes_mgm2(tier, prop=None):
     for off in _subsets(["x1", "x2"]):
         q.append(dict(algo="mgm2", spec="pair2", stop_cycle=2, offerers=off))
     q.append(dict(algo="mgm2", spec="pair2", stop_cycle=2))  # random offerer draw explored symbolically
+    # two decision phases with the roles changing (or not) between them; one computation running ahead
+    # (too many symbolic paths for three nodes: these shapes are decided by the sampled native pass, 8x the usual number of runs)
+    for roles in ([["x1", "x2"], ["x1"]], [["x2"], ["x2"]], [["x2", "x3"], ["x3"]], [["x1"], ["x1", "x3"]]):
+        q.append(dict(algo="mgm2", spec="chain3", stop_cycle=3, offerers_by_cycle=roles, sample_only=True, sample_factor=8))
+    q.append(dict(algo="mgm2", spec="chain3", stop_cycle=3, modes=["min"], offerers_by_cycle=[["x2"], ["x2"]], policy="favor:x1", sample_only=True, sample_factor=4))
+    q.append(dict(algo="mgm2", spec="pair2", stop_cycle=3, offerers_by_cycle=[["x1"], ["x1"]]))
     q.append(dict(algo="mgm2", spec="pair_cost", stop_cycle=2, offerers=["x1"]))
     for off in ([], ["x2"], ["x1"]):
         q.append(dict(algo="mgm2", spec="chain3", stop_cycle=2, modes=["min"], offerers=off))
@@ -308,6 +331,8 @@ def _shapes_mgm2(tier, prop=None):
     s.append(dict(algo="mgm2", spec="iso", stop_cycle=2, offerers=["x1"]))
     s += [dict(algo="mgm2", spec="chain3", stop_cycle=2, modes=["min"], offerers=["x2"], policy="random", sched_seed=i, interleave_start=bool(i % 2)) for i in range(2, 8)]
     s.append(dict(algo="mgm2", spec="chain3", stop_cycle=3, modes=["min"], offerers=["x2"]))
+    for roles in ([["x1", "x2"], ["x1"]], [["x2"], ["x2"]], [["x2", "x3"], ["x3"]]):
+        s.append(dict(algo="mgm2", spec="chain3", stop_cycle=3, modes=["min"], offerers_by_cycle=roles))
     return s
 
 
